@@ -226,3 +226,18 @@ package disk
 //@   ensures missing: !old(key in s.blobs) ==> result != nil
 //@   ensures out_of_scope: old(key in s.blobs) && !inscope(s.blobs[key], scope) ==> result != nil
 //@   ensures view_same: (forall k string :: ((k in s.blobs) <==> old(k in s.blobs)) && s.blobs[k] == old(s.blobs[k])) && s.size == old(s.size)
+
+// ---- Clean (manual shrink towards a utilization target) -------------------------------------------
+// Thin: the target is the requested percentage of the capacity; LRU eviction is asked to free exactly
+// capacity - target; beyond that a blob is deleted only while the store is still above the target,
+// and a blob banned from eviction only if the caller said bans need not be respected.
+//@ func store.Clean
+//@   requires sshape(s) && s.capacity > 0 && s.capacity <= 1125899906842624
+//@   opaque_mul
+//@   modifies *
+//@   assert evicts_down_to_target: at store.ensureFreeSpace#0 :: 0 <= targetUtilPercent && targetUtilPercent < 100 && arg1 == s.capacity - targetSize && targetSize == s.capacity * targetUtilPercent / 100
+//@   assert deletes_unbanned_only_above_target: at store.deleteNoLock#0 :: s.size > targetSize
+//@   assert deletes_banned_only_if_allowed_and_above_target: at store.deleteNoLock#1 :: !respectEvictionBan && s.size > targetSize
+//@   loop 0 invariant inv: i_all(s) && shape_same(s) && s.capacity == entry(s.capacity)
+//@   loop 1 invariant inv: i_all(s) && 0 - 1 <= rangeindex && rangeindex < len(notEvictionBannedKeys)
+//@   loop 2 invariant inv: i_all(s)
